@@ -2,6 +2,7 @@ SPECIFICATION MCSpec
 CONSTANTS T = 3
  N = 4
  AggMode = "code"
+ Misfiled = FALSE
  FailMode = "partial"
 INVARIANTS TypeOK GroupValid NothingOnFault AllOrNothing PublishOnOK ErrMeansNothing
 CHECK_DEADLOCK FALSE
